@@ -432,6 +432,17 @@ class Gen:
         if not sc.arrs:
             return self.op_new_array(sc, persist)
         length = rng.choice(sorted(set(sc.arrs.values())))
+        if rng.random() < 0.15:
+            # the stage idiom: a local starts as a plain copy of an array (the same object, until it is re-bound)
+            # and is then advanced by a two-term sum whose first term is the local itself
+            same = [a for a, l in sc.arrs.items() if l == length]
+            src = rng.choice(same)
+            lhs = self.new_local(sc, ARR_NAMES)
+            if lhs != src and lhs not in sc.nums and lhs not in sc.bools and lhs not in sc.counters:
+                step = self.arr_atom(sc, same)
+                sc.arrs[lhs] = length
+                return [["assign", lhs, None, ["var", src], [], self.s()],
+                        ["assign", lhs, None, ["+", ["var", lhs], step], [], self.s()]]
         rhs = self.arr_expr(sc, rng.choice([0, 1, 2]), length)
         if persist and rng.random() < 0.3:
             cands = [a for a, l in persist["arrs"].items() if l == length]
